@@ -9,6 +9,12 @@ Correspondence stream `c11` (two request kinds):
 * op "encode": `encode_contrasts(...)`, the `C(...)` encoder closure and `model_matrix("… C(x, …)")`
   on a data vector with absent levels / nulls / values outside the levels against
   `Model.Contrasts.encodeContrasts`.
+* op "formula": ONE `model_matrix` call whose formula needs the same `C(x, contr.…)` factor several times (main effect,
+  interactions with numerical / categorical partners, several parts of `lhs ~ … | …`, with / without intercept, a second
+  contrast factor on the same column), so that it is encoded in full and in reduced rank in either order. The sequence of
+  uses (factor, rank, new part) is read off `model_spec.structure`; every use is recovered from the matrix by dividing by
+  the exactly known partner columns and compared with `Model.ContrastsCache.materialize` (the model of
+  `FormulaMaterializer._encode_evaled_factor`: encoded cache + per-part encoder state) on that history.
 
 Numbers: the model answers in exact rationals ("p/q"). Implementation floats are compared after
 `Fraction(x).limit_denominator(10**6)` plus an absolute check (1e-12 for codings, 1e-9 for inverses).
@@ -19,7 +25,8 @@ the implementation's entry `v` must satisfy `|v - sign(P)·sqrt(P²/norms2)| <= 
 
 Oracle (implementation only, numpy): shapes, rank of [1|C], coefficient @ [1|C] ≈ I, column sums,
 dense == sparse, equality with independent R-style constructions, encode == indicator @ coding with
-the reference level / explicit level list honoured.
+the reference level / explicit level list honoured; for op "formula": every block of columns a contrast factor contributes to
+a term (n-1 columns: reduced coding, n columns: full coding) == indicator @ that coding, times the partner columns.
 """
 from __future__ import annotations
 
@@ -47,6 +54,8 @@ REQUIRED_THEOREMS = [
     "apply_is_product",
     "matMul_entry",
     "dense_sparse_agree",
+    "cache_transparent",
+    "materialized_is_product",
 ]
 TRUSTED = [
     "numpy.linalg.inv / scipy.sparse.linalg.inv are not modelled: the implementation's coefficient matrix is "
@@ -54,6 +63,9 @@ TRUSTED = [
     "pandas.Categorical / get_dummies / categorical_encode_series_to_sparse_csc_matrix are modelled by "
     "Model.Contrasts.indicator (one-hot rows; nulls and values outside the levels give zero rows; inferred categories = "
     "sorted distinct values, numbers before strings) and validated by the correspondence only",
+    "op 'formula': which rank each use of the factor needs (patsy's rank rules, properties C02/C03) and the row-wise product "
+    "of a term's factors are not modelled here: the history is read off the implementation's model_spec.structure and the "
+    "partner columns (z, w = +-2^k or 0; g = 0/1 indicators of its sorted levels, first dropped when reduced) are divided out",
     "polynomial contrasts: sqrt and the float three-term recurrence are not modelled; columns are compared as "
     "sign(P)*sqrt(P^2/norms2) with tolerance 1e-11*2^(max(0,n-8)/1.5) (arbitrary scores only for n <= 12, affine scores beyond) (1e-7-level float error at n=40 is rounding, not a finding)",
 ]
@@ -68,7 +80,11 @@ RULE = (
     "encoder / model_matrix, levels explicit / from state / inferred; plus a malformed stream (base not among levels, wrong number "
     "of scores, duplicate levels, unknown output, empty level list); plus a falsy-reference stream: level lists containing the int 0 / "
     "the empty string at a non-first position with base= that label, for treatment and SAS, as matrices and through "
-    "encode_contrasts / C() / model_matrix. non-trivial = n >= 3; distinct by canonical JSON"
+    "encode_contrasts / C() / model_matrix; plus a formula stream: n in {1,2,3,4,5,7} (thorough up to 20) x the 13 option "
+    "combinations x {one of 8 canonical shapes in which the factor is needed full-then-reduced / reduced-then-full / in two parts, "
+    "one random shape}: terms drawn from A, A:z, A:w, A:g, A:z:w, A:g:z, z, w, g (+ B, B:z, B:g for a second contrast factor on the "
+    "same column), intercept 0/1 per part, 1-2 parts, optional lhs, levels explicit / inferred, data with nulls / absent / outside "
+    "values, output pandas/numpy/sparse, at least two uses of A per formula. non-trivial = n >= 3; distinct by canonical JSON"
 )
 
 STR_POOL = ["a", "b", "c", "d", "e", "f", "g", "h", "B", "Z", "aa", "ab", "10", "9", "x y", "é", "T.a", "[q]"]
@@ -173,7 +189,85 @@ def _falsy_cases(rng, tier):
                                levels=None if how == "infer" else levels, ltype=ltype, falsy=True)
 
 
+# ---- op "formula": one materialization that needs the same contrast-coded factor several times
+
+NUM_POOL = ["1/1", "2/1", "4/1", "8/1", "1/2", "1/4", "-1/1", "-2/1", "-4/1", "-1/2"]  # +-2^k: division by them is exact
+G_POOL = ["u", "v", "w"]
+A_TERMS = ["A", "A:z", "A:w", "A:g", "A:z:w", "A:g:z"]
+B_TERMS = ["B", "B:z", "B:g"]
+# shapes in which the factor A is needed in both ranks in one call, in either order, in one part or across parts
+CANONICAL = [
+    [["0", "A", "z", "A:z"]],            # full (main effect), then reduced (z is spanned)
+    [["0", "A", "g", "A:g"]],            # same with a categorical partner
+    [["1", "A", "A:z"]],                 # reduced, then full (z alone is not in the model)
+    [["1", "A", "A:g"]],
+    [["0", "A"], ["1", "A"]],            # two parts of one materialization
+    [["1", "A"], ["0", "A", "A:w", "w"]],
+    [["1", "A:z", "A:w", "z"]],          # reduced and full inside interactions only
+    [["0", "A", "z", "w", "A:z", "A:z:w", "A:w"]],
+]
+
+
+def _formula_shape(rng, with_b):
+    nparts = 1 if rng.random() < 0.65 else 2
+    while True:
+        parts = []
+        for _ in range(nparts):
+            pool = A_TERMS + ["z", "w", "g"] + (B_TERMS if with_b else [])
+            terms = [t for t in pool if rng.random() < 0.4]
+            rng.shuffle(terms)
+            parts.append([rng.choice(["0", "1"])] + terms)
+        if sum(1 for p in parts for t in p if t.split(":")[0] == "A") >= 2:
+            return parts
+
+
+def _formula_cases(rng, tier):
+    """The same `C(x, <contrast>)` factor is materialised several times in ONE call of `model_matrix`: as a main effect and
+    inside interactions with numerical / categorical partners, with and without intercept, in one or several parts of a
+    multi-part formula (`lhs ~ … | …`), so that it is needed in full rank and in reduced rank in either order; optionally with
+    a second contrast factor on the same column. Every occurrence must be indicator x (reduced or full) coding."""
+    sizes = {"quick": [1, 2, 3, 4, 5, 7], "thorough": [1, 2, 3, 4, 5, 6, 8, 12, 20], "search": [2, 3, 4, 6]}[tier]
+    reps = {"quick": 1, "thorough": 2, "search": 2}[tier]
+    k = rng.randrange(len(CANONICAL))
+    for n in sizes:
+        for opt_i in range(13):
+            for rep in range(2 * reps):
+                ltype = rng.choice(["str", "int", "mixed"])
+                levels = _labels(rng, n, ltype)
+                opt = _options(rng, n, levels)[opt_i]
+                nrows = rng.randint(4, 9)
+                data = _data(rng, levels, nrows)
+                if all(d is None or d not in levels for d in data):
+                    data[rng.randrange(nrows)] = levels[0]
+                how = rng.choice(["arg", "arg", "infer"])
+                with_b = rep % 2 == 1 and rng.random() < 0.5
+                if how == "infer":
+                    present = _infer(data)
+                    if opt.get("base") is not None:
+                        opt = dict(opt, base=rng.choice(present))
+                    if opt.get("scores") is not None:
+                        opt = dict(opt, scores=_scores(rng, len(present)))
+                    lv = present
+                else:
+                    lv = levels
+                opt2 = rng.choice(_options(rng, len(lv), lv)) if with_b else None
+                if rep % 2 == 0:
+                    parts = CANONICAL[k % len(CANONICAL)]
+                    k += 1
+                else:
+                    parts = _formula_shape(rng, with_b)
+                g = [rng.choice(G_POOL) for _ in range(nrows)]
+                if len(set(g)) < 2:
+                    g[0], g[1] = "u", "v"
+                yield dict(op="formula", contrast=opt, contrast2=opt2, levels=None if how == "infer" else levels,
+                           data=data, z=[rng.choice(NUM_POOL) for _ in range(nrows)],
+                           w=[rng.choice(NUM_POOL + ["0/1"]) for _ in range(nrows)], g=g, parts=parts,
+                           lhs=rng.random() < 0.2, output=rng.choice(["pandas", "numpy", "sparse"]), ltype=ltype)
+
+
 def cases(rng, tier):
+    if tier == "search":
+        yield from _formula_cases(rng, tier)
     yield from _falsy_cases(rng, tier)
     nmax = {"quick": 12, "thorough": 40, "search": 9}[tier]
     enc_per = {"quick": 2, "thorough": 3, "search": 1}[tier]
@@ -243,6 +337,9 @@ def cases(rng, tier):
             yield dict(op="encode", contrast=opt, data=_data(rng, levels, 4), reduced=rng.random() < 0.5,
                        output=rng.choice(["pandas", "numpy", "sparse"]), via="encode", levels_via="arg", levels=[],
                        ltype=ltype, malformed=kind)
+    if tier != "search":
+        # after the older streams, so that their cases are unchanged for a given seed
+        yield from _formula_cases(rng, tier)
 
 
 def describe(c):
@@ -254,6 +351,8 @@ def describe(c):
         name += "(scores)"
     n = len(c["levels"]) if c.get("levels") is not None else len(_infer(c["data"]))
     bucket = "1" if n == 1 else "2" if n == 2 else "3-6" if n <= 6 else "7-12" if n <= 12 else "13+"
+    if c["op"] == "formula":
+        name += ":parts=%d" % len(c["parts"]) + (":two-factors" if c.get("contrast2") else "")
     return f"{c['op']}:{name}:n={bucket}" + (":malformed" if c.get("malformed") else "") + (":falsy-base" if c.get("falsy") else "")
 
 
@@ -344,7 +443,114 @@ def impl(c):
                 format=_try(lambda: ct.get_factor_format(levels, reduced_rank=rr)),
             )
         return out
+    if c["op"] == "formula":
+        return _impl_formula(c)
     return _impl_encode(c)
+
+
+def _formula_exprs(c):
+    lv = ", levels=L" if c.get("levels") is not None else ""
+    return f"C(x, ct{lv})", f"C(x, ct2{lv})"
+
+
+def _formula_text(c):
+    a, b = _formula_exprs(c)
+    sub = {"A": a, "B": b}
+    parts = [" + ".join(":".join(sub.get(f, f) for f in t.split(":")) for t in p) for p in c["parts"]]
+    return ("w ~ " if c["lhs"] else "") + " | ".join(parts)
+
+
+def _impl_formula(c):
+    """one `model_matrix` call; per part: the matrix, its column names and, from `model_spec.structure`, for every term
+    the scoped terms the materializer produced (factor expression, reduced flag) and the number of columns"""
+    from formulaic import model_matrix
+    from formulaic.utils.structured import Structured
+
+    def run():
+        df = pandas.DataFrame({
+            "x": pandas.Series([_py(d) for d in c["data"]], dtype=object),
+            "z": [float(Fraction(v)) for v in c["z"]],
+            "w": [float(Fraction(v)) for v in c["w"]],
+            "g": list(c["g"]),
+        })
+        ctx = {"ct": _contrast(c["contrast"]), "L": None if c.get("levels") is None else [_py(l) for l in c["levels"]]}
+        if c.get("contrast2") is not None:
+            ctx["ct2"] = _contrast(c["contrast2"])
+        mm = model_matrix(_formula_text(c), df, na_action="ignore", output=c["output"], context=ctx)
+        out = []
+        for m in (list(mm._flatten()) if isinstance(mm, Structured) else [mm]):
+            ms = m.model_spec
+            out.append(dict(
+                names=[str(x) for x in ms.column_names], values=_arr(m),
+                terms=[dict(term=str(t.term), ncols=len(t.columns),
+                            scoped=[[[str(sf.factor.expr), bool(sf.reduced)] for sf in st.factors] for st in t.scoped_terms])
+                       for t in ms.structure]))
+        return dict(parts=out)
+
+    return _try(run)
+
+
+def _occurrences(c, o):
+    """Every scoped term of the materialised formula that contains a contrast factor (A = `C(x, ct…)`, B = `C(x, ct2…)`),
+    in materialization order. The columns of a scoped term are the row-wise products of its factors' columns, first factor
+    fastest; the partners are known exactly (z, w: +-2^k or 0; g: 0/1 indicators of its sorted levels, first level dropped
+    when reduced), so the block splits into groups (one per combination of partner columns), each group being the encoded
+    contrast factor times the per-row partner product `s`. Width of the factor: n (full) or n-1 (reduced)."""
+    exprA, exprB = _formula_exprs(c)
+    levels = c["levels"] if c.get("levels") is not None else _infer(c["data"])
+    n = len(levels)
+    glev = sorted(set(c["g"]))
+    nums = {"z": [Fraction(v) for v in c["z"]], "w": [Fraction(v) for v in c["w"]]}
+    nrows = len(c["data"])
+    occ = []
+    for pi, part in enumerate(o["parts"]):
+        off = 0
+        for t in part["terms"]:
+            end = off + t["ncols"]
+            for st in t["scoped"]:
+                fac = []  # (kind, names per column, per-row multipliers per column)
+                for expr, red in st:
+                    if expr in (exprA, exprB):
+                        fac.append(("C", "A" if expr == exprA else "B", red, n - 1 if red else n))
+                    elif expr in nums:
+                        fac.append(("num", [expr], [nums[expr]], 1))
+                    elif expr == "g":
+                        gl = glev[1:] if red else glev
+                        fac.append(("g", [f"g[T.{l}]" if red else f"g[{l}]" for l in gl],
+                                    [[Fraction(int(v == l)) for v in c["g"]] for l in gl], len(gl)))
+                    else:
+                        raise _Fail(f"unexpected factor {expr!r} in term {t['term']}")
+                widths = [f[-1] for f in fac]
+                W = math.prod(widths)
+                cs = [i for i, f in enumerate(fac) if f[0] == "C"]
+                if len(cs) == 1:
+                    ci = cs[0]
+                    groups = {}
+                    for k in range(W):
+                        idx, r = [], k
+                        for wd in widths:
+                            idx.append(r % wd)
+                            r //= wd
+                        key = tuple(x for i, x in enumerate(idx) if i != ci)
+                        if key not in groups:
+                            sv = [Fraction(1)] * nrows
+                            for i, f in enumerate(fac):
+                                if i != ci:
+                                    sv = [a * b for a, b in zip(sv, f[2][idx[i]])]
+                            groups[key] = dict(cols=[], s=sv, pre=[f[1][idx[i]] for i, f in enumerate(fac) if i < ci],
+                                               post=[f[1][idx[i]] for i, f in enumerate(fac) if i > ci])
+                        groups[key]["cols"].append(off + k)  # increasing k = increasing column index of the factor
+                    occ.append(dict(part=pi, term=t["term"], which=fac[ci][1], reduced=fac[ci][2],
+                                    expr=exprA if fac[ci][1] == "A" else exprB, groups=list(groups.values())))
+                elif cs:
+                    raise _Fail(f"term {t['term']} has two contrast factors (not generated)")
+                off += W
+            if off != end:
+                raise _Fail(f"part {pi} term {t['term']}: {t['ncols']} columns, but its scoped terms {t['scoped']} need "
+                            f"{t['ncols'] + off - end} for {n} levels (reduced coding n x (n-1), full coding n x n)")
+        if off != part["values"]["shape"][1]:
+            raise _Fail(f"part {pi}: {part['values']['shape'][1]} columns, structure accounts for {off}")
+    return occ
 
 
 def _impl_encode(c):
@@ -403,8 +609,27 @@ def _impl_encode(c):
 def request(c, o):
     if c["op"] == "matrices":
         return dict(op="matrices", contrast=c["contrast"], levels=c["levels"])
+    if c["op"] == "formula":
+        return dict(op="formula", contrast=c["contrast"], contrast2=c.get("contrast2"), levels=c.get("levels"),
+                    data=c["data"], output=c["output"], history=_history(c, o))
     return dict(op="encode", contrast=c["contrast"], levels=c.get("levels"), data=c["data"], reduced=c["reduced"],
                 output=c["output"])
+
+
+def _history(c, o):
+    """the sequence of encodings the materializer needed, read off the implementation's own structure: which factor, in
+    which rank, and whether it is the factor's first use in a new part (= new ModelSpec, fresh encoder state)"""
+    try:
+        occs = _occurrences(c, o) if isinstance(o, dict) and "parts" in o else None
+    except _Fail:
+        occs = None
+    if occs is None:
+        return [dict(which="A", reduced=False, newspec=True), dict(which="A", reduced=True, newspec=False)]
+    hist, last = [], {}
+    for oc in occs:
+        hist.append(dict(which=oc["which"], reduced=oc["reduced"], newspec=last.get(oc["which"]) != oc["part"]))
+        last[oc["which"]] = oc["part"]
+    return hist
 
 
 def _n_of(c):
@@ -506,6 +731,8 @@ def agree(c, o, m):
             if io["spans_intercept"] != mo["spans_intercept"] or io["format"] != mo["format"]:
                 return f"{key}: spans_intercept/format differ"
         return None
+    if c["op"] == "formula":
+        return _agree_formula(c, o, m)
     # encode
     me = m["enc"]
     if "error" in o or "error" in me:
@@ -521,6 +748,46 @@ def agree(c, o, m):
     for fld in ("names", "spans_intercept", "drop_field", "format", "format_reduced", "categories"):
         if o[fld] != me[fld]:
             return f"{fld}: impl {o[fld]} vs model {me[fld]}"
+    return None
+
+
+def _agree_formula(c, o, m):
+    if "error" in o or "error" in m:
+        return None if ("error" in o and "error" in m) else f"impl {o.get('error', 'ok')} vs model {m.get('error', 'ok')}"
+    try:
+        occs = _occurrences(c, o)
+    except _Fail as e:
+        return str(e)
+    if len(occs) != len(m["encs"]):
+        return f"{len(occs)} occurrences vs {len(m['encs'])} model encodings"
+    for oc, me in zip(occs, m["encs"]):
+        enc = me["enc"]
+        opt = c["contrast"] if oc["which"] == "A" else c["contrast2"]
+        where = f"part {oc['part']} term {oc['term']} ({'reduced' if oc['reduced'] else 'full'} {opt['k']})"
+        n = len(enc["categories"])
+        norms = me.get("norms2") if (opt["k"] == "poly" and oc["reduced"] and n > 1 and isinstance(me.get("norms2"), list)) else None
+        tol = polytol(n, opt.get("scores")) if norms is not None else 1e-12
+        part = o["parts"][oc["part"]]
+        V = part["values"]["rows"]
+        fmt = enc["format"]
+        for g in oc["groups"]:
+            if len(g["cols"]) != len(enc["names"]):
+                return f"{where}: {len(g['cols'])} columns vs model {len(enc['names'])}"
+            for i, col in enumerate(g["cols"]):
+                want = ":".join(g["pre"] + [fmt.replace("{name}", oc["expr"]).replace("{field}", str(_py(enc["names"][i])))] + g["post"])
+                if part["names"][col] != want:
+                    return f"{where}: column name {part['names'][col]!r} vs model {want!r}"
+                for r, sv in enumerate(g["s"]):
+                    v = V[r][col]
+                    if sv == 0:
+                        if v != 0:
+                            return f"{where}: [{r},{col}] = {v} where a partner column is 0"
+                        continue
+                    x = v / float(sv)  # exact: the partners are +-2^k
+                    f = enc["values"][r][i]
+                    w = _cmp_poly(x, f, norms[i], tol) if norms is not None else _cmp_exact(x, f, tol)
+                    if w:
+                        return f"{where}: column {part['names'][col]!r} row {r}: {w}"
     return None
 
 
@@ -588,9 +855,12 @@ def _valid(c):
     o = c["contrast"]
     if o.get("base") is not None and o["base"] not in levels:
         return None
-    if o["k"] == "poly" and o.get("scores"):
-        if len(o["scores"]) != len(levels) or len(set(o["scores"])) != len(levels):
+    for o in [o] + ([c["contrast2"]] if c.get("contrast2") else []):
+        if o.get("base") is not None and o["base"] not in levels:
             return None
+        if o["k"] == "poly" and o.get("scores"):
+            if len(o["scores"]) != len(levels) or len(set(o["scores"])) != len(levels):
+                return None
     return levels
 
 
@@ -628,6 +898,8 @@ def oracle(c, o):
     if levels is None:
         return None
     try:
+        if c["op"] == "formula":
+            return _oracle_formula(c, o, levels)
         return _oracle_matrices(c, o, levels) if c["op"] == "matrices" else _oracle_encode(c, o, levels)
     except _Fail as e:
         return str(e)
@@ -718,6 +990,40 @@ def _oracle_encode(c, o, levels):
     return None
 
 
+def _oracle_formula(c, o, levels):
+    """every occurrence of the contrast factor inside one materialization is indicator(x) @ coding — the reduced coding
+    (n x (n-1)) where the factor contributes n-1 columns, the full coding (identity) where it contributes n — times the
+    partner columns of its term; whatever was materialised before it in the same call"""
+    if "error" in o:
+        return f"model_matrix({_formula_text(c)!r}) raised {o['error']}"
+    from formulaic.transforms.contrasts import ContrastsState
+
+    n = len(levels)
+    data = c["data"]
+    ind = numpy.array([[1.0 if d == l else 0.0 for l in levels] for d in data]).reshape(len(data), n)
+    warnings.simplefilter("ignore")
+    coding = {}
+    mats = [_mat(p["values"], f"part {i}") for i, p in enumerate(o["parts"])]
+    for oc in _occurrences(c, o):
+        opt = c["contrast"] if oc["which"] == "A" else c["contrast2"]
+        key = (oc["which"], oc["reduced"])
+        if key not in coding:
+            # the coding matrix the implementation itself reports for these levels (checked against the textbook by op "matrices")
+            st = ContrastsState(_contrast(opt), [_py(l) for l in levels])
+            coding[key] = numpy.asarray(st.get_coding_matrix(reduced_rank=oc["reduced"]).values, dtype=float).reshape(
+                n, n - 1 if oc["reduced"] else n)
+        enc = ind @ coding[key]
+        for g in oc["groups"]:
+            sv = numpy.array([float(x) for x in g["s"]])
+            V = mats[oc["part"]][:, g["cols"]]
+            want = enc * sv[:, None]
+            if V.shape != want.shape or not numpy.allclose(V, want, atol=1e-12 * max(1.0, float(numpy.abs(sv).max(initial=0)))):
+                names = [o["parts"][oc["part"]]["names"][k] for k in g["cols"]]
+                return (f"{_formula_text(c)!r} ({c['output']}): columns {names} of term {oc['term']} (part {oc['part']}) are not "
+                        f"indicator(x) @ {'reduced' if oc['reduced'] else 'full'} {opt['k']} coding times the partner columns")
+    return None
+
+
 def classify(c, o, why):
     return None
 
@@ -727,8 +1033,10 @@ LEVEL_TEXT = (
     "(written from the code's index arithmetic) equals the textbook/R matrix, is n x (n-1), that the closed-form coefficient "
     "matrix is a two-sided inverse of [1 | coding] (hence the determinant is a unit), that sum/Helmert/difference/polynomial "
     "columns sum to zero, that polynomial columns are mutually orthogonal, that the full coding is the identity, and that "
-    "encoding equals indicator x coding including the treatment fast path. The model is tied to the real code by a differential "
-    "correspondence on every run (all option combinations, n = 1..12 / 1..40, str/int/mixed labels, nulls, absent levels)."
+    "encoding equals indicator x coding including the treatment fast path, and that the materializer's encoded-factor cache and "
+    "per-part encoder state are transparent: for every history of full/reduced uses of the factor inside one materialization each "
+    "use gets exactly the stand-alone encoding (cache_transparent, materialized_is_product). The model is tied to the real code by a differential "
+    "correspondence on every run (all option combinations, n = 1..12 / 1..40, str/int/mixed labels, nulls, absent levels; formulas that use one factor several times)."
 )
 LEVEL_NOTE = (
     "Trusted: Lean kernel + propext/Classical.choice/Quot.sound; the hand model of contrasts.py / poly.py validated by "
